@@ -71,14 +71,14 @@ streampos FileTools::getFileSize(const std::string& filename)
 std::string FileTools::getParent(const std::string& path, char dirSep)
 {
   // Position of file name:
-  ptrdiff_t begin = static_cast<ptrdiff_t>(path.find_last_of(dirSep));
+  size_t begin = path.find_last_of(dirSep);
 
-  // Copy string and delte filename:
-  string result(path);
-  result.erase(result.begin() + begin, result.end());
+  // No directory in this path:
+  if (begin == string::npos)
+    return "";
 
   // Send directories
-  return result;
+  return path.substr(0, begin);
 }
 
 /******************************************************************************/
